@@ -111,7 +111,7 @@ def main():
         env2 = {"ASAN_OPTIONS": "detect_leaks=1:exitcode=99:abort_on_error=0:fast_unwind_on_malloc=0", "QSX_SCRATCH": tmp}
         groups = {}
         for cid, rc, err in crashes:
-            if "LeakSanitizer" in err:
+            if "LeakSanitizer" in err or "byte(s) leaked" in err or re.search(r"(?:Direct|Indirect) leak of", err):
                 sig = (kinds[cid], tuple(sorted(set(leak_sites(err)))), tuple(sorted(set(re.findall(r"leak of (\d+) byte", err)))))
                 groups.setdefault(sig, []).append(cid)
         cap = 3 if ck.thorough() else 1
@@ -120,8 +120,12 @@ def main():
         with ThreadPoolExecutor(max_workers=16) as ex:
             rer = list(ex.map(lambda c: run_harness("h_solve", scripts[c], timeout=300, asan=True, env=env2), reps))
         nleak = sum(len(g) for g in groups.values())
-        ncrash = sum(1 for cid, rc, err in crashes if "LeakSanitizer" not in err)
-        ck.cov["crash_samples"] = [(cid, rc, re.sub(r"\s+", " ", err[:1500])) for cid, rc, err in crashes if "LeakSanitizer" not in err][:4]
+        ncrash = sum(1 for cid, rc, err in crashes if not ("LeakSanitizer" in err or "byte(s) leaked" in err or re.search(r"(?:Direct|Indirect) leak of", err)))
+        ck.cov["crash_samples"] = [(cid, rc, re.sub(r"\s+", " ", err[:1500])) for cid, rc, err in crashes if not ("LeakSanitizer" in err or "byte(s) leaked" in err or re.search(r"(?:Direct|Indirect) leak of", err))][:4]
+        # crashes are C17's subject; their scripts are kept so that they can be replayed / moved to corpus/C17
+        for cid, rc, err in crashes:
+            if not ("LeakSanitizer" in err or "byte(s) leaked" in err or re.search(r"(?:Direct|Indirect) leak of", err)):
+                open(ck.replay_path("crash_%s.txt" % cid), "w").write(scripts[cid] + "\n# " + err[-2500:].replace("\n", "\n# ") + "\n")
         seen_sites = {}
         for cid, (rc2, out2, err2) in zip(reps, rer):
             sites = sorted(set(leak_sites(err2)))
